@@ -11,7 +11,13 @@ def write_program(program):
     Exceptions propagate."""
     ns = sut.load()
     stream = io.BytesIO()
-    writer = ns.DiffXWriter(stream, encoding=program.get('encoding', 'utf-8'))
+    main = program.get('encoding', 'utf-8')
+
+    if main == 'utf-8' and len(program['calls']) % 2 == 0:
+        # the documented default
+        writer = ns.DiffXWriter(stream)
+    else:
+        writer = ns.DiffXWriter(stream, encoding=main)
 
     for op, kw in program['calls']:
         gen.call_writer(writer, op, kw)
